@@ -5,11 +5,27 @@ import worldprop
 import vlib
 
 
+SIZES = dict(general=(150, 3000), tokens=(150, 3000), twofactor=(100, 2000), remember=(100, 1500))
+
+
 class C17(worldprop.WorldProp):
-    pass
+    """adds the fault-enumeration flows in which a mailed token travels in the request URL (the confirm link and
+    the recover page): a backend failure there reaches the error handler, whose log line is scanned too"""
+
+    def gen_fn(self, binp, prof, thorough):
+        import os
+        if prof != "faults-tok":
+            n = SIZES[prof]
+            return worldprop.generate(binp, prof, n[1] if thorough else n[0], 60 if thorough else 30, vlib.seed(), "C17_" + prof)
+        path = os.path.join(vlib.CACHE, "faults_c17.jsonl")
+        rc, log = vlib.run_harness(["faults", "-seed", str(vlib.seed()), "-only", "tok-", "-out", path], binp=binp, timeout=3000)
+        hs = vlib.read_jsonl(path) if rc == 0 and os.path.exists(path) else []
+        if os.path.exists(path):
+            os.remove(path)
+        return hs, ([] if rc == 0 else [log[-1500:]])
 
 
-P = C17("C17", "no_pred", [("general", 150, 3000), ("tokens", 150, 3000), ("twofactor", 100, 2000), ("remember", 100, 1500)],
+P = C17("C17", "no_pred", [(k, v[0], v[1]) for k, v in SIZES.items()] + [("faults-tok", 0, 0)],
         {151, 152, 154, 155, 156, 16, 17})
 
 
